@@ -94,8 +94,10 @@ struct Session {
     ep::ScriptSink snk;
     Ledger led;
     RegP p;
-    Session(bool serial_, bool mem16_, size_t blocksize, bool chunk_src = true, bool chunk_snk = true, Bytes input = {})
-        : serial(serial_), mem16(mem16_), src(chunk_src, std::move(input)), snk(chunk_snk), led(blocksize) {
+    // srckind: 0 octet source, 1 chunk source, k >= 2: chunk source that lends a k-octet scratch buffer (getbuffer extension)
+    Session(bool serial_, bool mem16_, size_t blocksize, int srckind = 1, bool chunk_snk = true, Bytes input = {})
+        : serial(serial_), mem16(mem16_), src(srckind != 0, std::move(input)), snk(chunk_snk), led(blocksize) {
+        if (srckind >= 2) src.lend((size_t)srckind);
         regp_init(&p);
         if (mem16) regp_use_memory16(&p, vp_read16, vp_write16); else regp_use_memory8(&p, vp_read8, vp_write8);
         regp_use_channel(&p, serial ? RP_EP_SERIAL : RP_EP_TCP, src.src, snk.snk);
